@@ -21,6 +21,7 @@ import (
 	"math/rand"
 	"os"
 	"path/filepath"
+	"runtime/debug"
 	"strings"
 	"time"
 
@@ -129,6 +130,8 @@ func main() {
 	storeOrders := flag.Int("store-orders", 2, "insertion orders into a Store per set")
 	storeReps := flag.Int("store-reps", 10, "UnminedTxs calls per insertion order")
 	flag.Parse()
+	// millions of short-lived maps and slices: collect less often
+	debug.SetGCPercent(800)
 
 	root, err := common.ScratchRoot("kahn")
 	if err != nil {
